@@ -180,7 +180,8 @@ Definition notify (w : list node) (rt : routing) (mh : N) (at_ : name) (p : pkt)
   end.
 
 (* ---------- one datagram sent by a socket ---------- *)
-Inductive sync := SNone | SUnknown | SNoRoute.
+Inductive sync := SNone | SUnknown | SNoRoute | STooLong.   (* STooLong: "service name too long", nothing is sent *)
+Definition too_long (s : name) : bool := Nat.ltb 8 (List.length s).
 (* what becomes of a packet that was offered to a listener: somebody read it, or the socket was
    closed while the packet was still waiting to be read *)
 Inductive fate := FRead | FClosedWaiting.
@@ -203,6 +204,8 @@ Definition after_wait (fixed : bool) w rt mh (at_ : name) (p : pkt) : outcome :=
 
 Definition send_gen (fixed : bool) (w : list node) (rt : routing) (mh hops : N) (p : pkt) (f : fate)
   : outcome :=
+  (* SendMessageWithHopsToLive refuses service names that do not fit the 8-byte wire field *)
+  if too_long (p_fs p) || too_long (p_ts p) then mkout STooLong None false [] else
   match travel w (rt (p_fn p) (p_tn p)) hops true p with
   | TNothing | TLost | TPublish _ => quiet
   | TSyncUnknown => mkout SUnknown None false []
@@ -238,7 +241,7 @@ Definition monitor_match (p : pkt) (r : name * name * notif) : bool :=
 Definition dial (w : list node) (rt : routing) (mh : N) (p : pkt) (f : fate) : dial_out :=
   let o := send w rt mh mh p f in
   match o_sync o with
-  | SUnknown | SNoRoute => DSyncFail
+  | SUnknown | SNoRoute | STooLong => DSyncFail
   | SNone =>
     if existsb (monitor_match p) (o_recv o) then DCancelled
     else match o_deliv o with Some _ => DProceeds | None => DTimesOut end
@@ -256,12 +259,25 @@ Definition ping (w : list node) (rt : routing) (mh hops : N) (a e target : name)
   match o_sync o with
   | SUnknown => PgSyncUnknown
   | SNoRoute => PgNoRoute
+  | STooLong => PgSilence
   | SNone =>
     if o_pong o then PgReply
     else match filter (fun r => let '(nd, s, _) := r in beq_bytes nd a && beq_bytes s e) (o_recv o) with
          | (_, _, x) :: _ => PgProblem (nt_pb x) (nt_via x)
          | [] => PgSilence
          end
+  end.
+
+(* CreateTraceroute: one Ping per hop budget 0, 1, 2, ... for as long as the answer is "message
+   expired" (the notice of the node where the budget ran out); any other outcome ends it *)
+Fixpoint trace (fuel : nat) (w : list node) (rt : routing) (mh h : N) (a e target : name) : list ping_out :=
+  match fuel with
+  | O => []
+  | S f => let r := ping w rt mh h a e target in
+           match r with
+           | PgProblem PExpired _ => r :: trace f w rt mh (h + 1) a e target
+           | _ => [r]
+           end
   end.
 
 (* ---------- well-formed worlds ---------- *)
@@ -313,7 +329,7 @@ Fixpoint beq_recv (a b : list (name * name * notif)) : bool :=
   | _, _ => false
   end.
 Definition beq_sync (a b : sync) : bool :=
-  match a, b with SNone, SNone | SUnknown, SUnknown | SNoRoute, SNoRoute => true | _, _ => false end.
+  match a, b with SNone, SNone | SUnknown, SUnknown | SNoRoute, SNoRoute | STooLong, STooLong => true | _, _ => false end.
 Definition beq_optname (a b : option name) : bool :=
   match a, b with None, None => true | Some x, Some y => beq_bytes x y | _, _ => false end.
 Definition beq_outcome (a b : outcome) : bool :=
@@ -342,7 +358,9 @@ Inductive unreach_case :=
    listener): a notification really delivered on that socket, the connections as packets
    (socket's node, socket's service, remote node, remote service), and which of them were
    cancelled by it *)
-| CMonitor (r : name * name * notif) (conns : list pkt) (obs : list bool).
+| CMonitor (r : name * name * notif) (conns : list pkt) (obs : list bool)
+(* Netceptor.Traceroute: the result of every hop *)
+| CTrace (w : list node) (P : list name) (mh : N) (a e target : name) (obs : list ping_out).
 
 Definition unreach_check (c : unreach_case) : bool :=
   match c with
@@ -356,4 +374,11 @@ Definition unreach_check (c : unreach_case) : bool :=
        | x :: a', y :: b' => Bool.eqb x y && eqb a' b'
        | _, _ => false
        end) (map (fun p => monitor_match p r) conns) obs
+  | CTrace w P mh a e t obs =>
+    (fix eqp (x y : list ping_out) : bool :=
+       match x, y with
+       | [], [] => true
+       | u :: x', v :: y' => beq_ping u v && eqp x' y'
+       | _, _ => false
+       end) (trace (S (N.to_nat mh)) w (line_route P) mh 0 a e t) obs
   end.
